@@ -29,7 +29,10 @@
 #include <unifex/retry_when.hpp>
 #include <unifex/into_variant.hpp>
 #include <unifex/when_any.hpp>
+#include <unifex/allocate.hpp>
+#include <unifex/with_allocator.hpp>
 #include <deque>
+#include <map>
 
 namespace k2v2 {
 using k2::log; using k2::err; using k2::code_of; using k2::CTL; using k2::leaf_ctl;
@@ -216,10 +219,15 @@ struct leaf_op {
   unifex::manual_lifetime<cb_t> stopcb;
   bool cb_live = false, started_ = false, done_ = false;
 
+  unsigned alive_ = 0x600DC0DEu;     // destructor canary: a second destructor call on the same storage is reported
   template <typename R2>
-  leaf_op(int i, bool re, R2&& rr) : id(i), reactive(re), r((R2&&)rr) {}
+  leaf_op(int i, bool re, R2&& rr) : id(i), reactive(re), r((R2&&)rr) {
+    log("ctor " + std::to_string(id));   // implementation-only marker (C02 monitor: constructions vs destructions)
+  }
   leaf_op(leaf_op&&) = delete;
   ~leaf_op() {
+    if (alive_ != 0x600DC0DEu) { log("dtor_dead " + std::to_string(alive_ == 0xDEADDEADu ? id : -1)); return; }
+    alive_ = 0xDEADDEADu;
     if (!started_) { log("dtor_ns " + std::to_string(id)); return; }
     if (!done_) {   // destroyed before it completed: C02 violation (reported by the monitor)
       log("dtor_early " + std::to_string(id));
@@ -360,6 +368,50 @@ template <typename S> auto intov(S&& s) {
   return unifex::then(unifex::into_variant((S&&)s), [](auto&& v) noexcept { return payload(std::get<0>(std::get<0>(v)).v); });
 }
 
+// ---- counting allocators (stage 5): allocate(s) takes the child operation's block from get_allocator(receiver) ------
+inline std::map<void*, int> BLOCKS;      // live blocks -> the allocator they came from
+template <typename T>
+struct calloc {
+  using value_type = T;
+  int a;
+  explicit calloc(int id) noexcept : a(id) {}
+  template <typename U> calloc(const calloc<U>& o) noexcept : a(o.a) {}
+  T* allocate(std::size_t n) {
+    void* p = ::operator new(n * sizeof(T));
+    BLOCKS[p] = a;
+    log("alloc " + std::to_string(a));
+    return static_cast<T*>(p);
+  }
+  void deallocate(T* p, std::size_t) noexcept {
+    auto it = BLOCKS.find(p);
+    if (it == BLOCKS.end()) log("free_unknown " + std::to_string(a));
+    else if (it->second != a) log("free_foreign " + std::to_string(a) + " from " + std::to_string(it->second));
+    else log("free " + std::to_string(a));
+    if (it != BLOCKS.end()) { BLOCKS.erase(it); ::operator delete(p); }
+  }
+  template <typename U> friend bool operator==(const calloc& x, const calloc<U>& y) noexcept { return x.a == y.a; }
+  template <typename U> friend bool operator!=(const calloc& x, const calloc<U>& y) noexcept { return x.a != y.a; }
+};
+template <typename S> auto walloc(S&& s, int a) { return unifex::with_allocator((S&&)s, calloc<std::byte>{a}); }
+
+// ---- a sender whose connect() throws (stage 5) -------------------------------------------------------------
+constexpr int CONNECT_THROW_CODE = 78;
+struct leafc {
+  template <template <typename...> class Variant, template <typename...> class Tuple>
+  using value_types = Variant<Tuple<payload>>;
+  template <template <typename...> class Variant>
+  using error_types = Variant<std::exception_ptr>;
+  static constexpr bool sends_done = true;
+  static constexpr unifex::blocking_kind blocking = unifex::blocking_kind::maybe;
+  static constexpr bool is_always_scheduler_affine = false;
+  int id;
+  template <typename R>
+  friend leaf_op<unifex::remove_cvref_t<R>> tag_invoke(unifex::tag_t<unifex::connect>, const leafc& s, R&&) {
+    log("cthrow " + std::to_string(s.id));   // implementation-only marker
+    throw err{CONNECT_THROW_CODE};
+  }
+};
+
 // ---- root receiver: the root's scheduler is that of context 0 ----------------------------------------
 using k2::counting_token;
 struct root_receiver {
@@ -370,6 +422,7 @@ struct root_receiver {
   void set_done() && noexcept { ++k2::roots; log("root done" + tail()); }
   friend counting_token tag_invoke(unifex::tag_t<unifex::get_stop_token>, const root_receiver& r) noexcept { return r.tok; }
   friend sched tag_invoke(unifex::tag_t<unifex::get_scheduler>, const root_receiver&) noexcept { return sched{0}; }
+  friend calloc<std::byte> tag_invoke(unifex::tag_t<unifex::get_allocator>, const root_receiver&) noexcept { return calloc<std::byte>{0}; }
 };
 
 // ---- running one case ----------------------------------------------------------------------------------
@@ -398,13 +451,21 @@ std::string run_case(MakeSender mk, bool prestop, const std::vector<script_ev>& 
   for (auto& c : CTL) c = leaf_ctl{};
   for (auto& q : QUEUE) q.clear();
   cur_ctx = 0; live_payloads = 0;
+  for (auto& b : BLOCKS) ::operator delete(b.first);     // blocks of an earlier run whose root never completed
+  BLOCKS.clear();
   unifex::inplace_stop_source ext;
   if (prestop) ext.request_stop();
   using op_t = unifex::connect_result_t<decltype(mk()), root_receiver>;
   alignas(alignof(op_t) > 64 ? alignof(op_t) : 64) static unsigned char storage[sizeof(op_t) + 64];
   std::memset(storage, 0xAB, sizeof storage);
-  op_t* op = ::new (static_cast<void*>(storage)) op_t(unifex::connect(mk(), root_receiver{counting_token{ext.get_token()}}));
-  unifex::start(*op);
+  op_t* op = nullptr;
+  try {
+    op = ::new (static_cast<void*>(storage)) op_t(unifex::connect(mk(), root_receiver{counting_token{ext.get_token()}}));
+  } catch (const err& e) {
+    // connect() of the whole expression threw: nothing was started; whatever had been constructed is gone again
+    log(e.code == CONNECT_THROW_CODE ? "connect_throw" : "connect_throw " + std::to_string(e.code));
+  }
+  if (op) unifex::start(*op);
   for (auto& ev : script) {
     log("|");                 // batch marker: what follows is caused by the next script event
     if (ev.what == 'S') {
@@ -424,6 +485,10 @@ std::string run_case(MakeSender mk, bool prestop, const std::vector<script_ev>& 
   if (k2::roots > 0) {
     log("root_dtor"); op->~op_t();
     log("plive " + std::to_string(live_payloads));   // implementation-only: tracked values still alive (C02: must be 0)
+    log("blive " + std::to_string(BLOCKS.size()));   // implementation-only: blocks not returned (C12: must be 0)
+  } else if (!op) {
+    log("plive " + std::to_string(live_payloads));
+    log("blive " + std::to_string(BLOCKS.size()));
   }
   std::string out;
   for (auto& l : k2::LOG) { if (!out.empty()) out += ";"; out += l; }
